@@ -48,13 +48,15 @@ inductive Step where
   | assertFail
 deriving DecidableEq, Repr
 
-/-- `base64_decode_single` -/
-def decodeSingle (ctx : DecCtx) (c : UInt8) : DecCtx × Step :=
+/-- `base64_decode_single`.  `lim` is the number of pad characters after which another one is
+refused: the test reads `ctx->padding >= 2` in lib/base64.cc (lim = 2) and `ctx->padding > 2` in
+libnettle 3.8 (lim = 3); both values are probed from the running code (`Gen.Base64.*PadLimit`). -/
+def decodeSingle (lim : Nat) (ctx : DecCtx) (c : UInt8) : DecCtx × Step :=
   let data := tableAt c
   if data = -1 then (ctx, .err)                                   -- TABLE_INVALID
   else if data = -2 then (ctx, .none)                             -- TABLE_SPACE
   else if data = -3 then                                          -- TABLE_END
-    if ctx.bits = 0 ∨ ctx.padding > 2 then (ctx, .err)
+    if ctx.bits = 0 ∨ ctx.padding ≥ lim then (ctx, .err)
     else if ctx.word &&& ((1 <<< ctx.bits) - 1) ≠ 0 then (ctx, .err)
     else ({ ctx with padding := (ctx.padding + 1) % 256, bits := (ctx.bits + 256 - 2) % 256 }, .none)
   else if data < 0 ∨ data ≥ 64 then (ctx, .assertFail)            -- default: assert
@@ -76,15 +78,15 @@ deriving DecidableEq, Repr
 
 /-- `base64_decode_update`: final context, the bytes stored into `dst` (in order, also on the
 failing path: they are written before the bad character is seen), and the outcome. -/
-def decodeUpdate (ctx : DecCtx) : Bytes → DecCtx × Bytes × UpdRes
+def decodeUpdate (lim : Nat) (ctx : DecCtx) : Bytes → DecCtx × Bytes × UpdRes
   | [] => (ctx, [], .ok)
   | c :: cs =>
-    match decodeSingle ctx c with
+    match decodeSingle lim ctx c with
     | (ctx', .err) => (ctx', [], .bad)
     | (ctx', .assertFail) => (ctx', [], .assertFail)
-    | (ctx', .none) => decodeUpdate ctx' cs
+    | (ctx', .none) => decodeUpdate lim ctx' cs
     | (ctx', .byte b) =>
-      let r := decodeUpdate ctx' cs
+      let r := decodeUpdate lim ctx' cs
       (r.1, b :: r.2.1, r.2.2)
 
 /-- `base64_decode_final` -/
@@ -92,17 +94,17 @@ def decodeFinal (ctx : DecCtx) : Bool := ctx.bits == 0
 
 /-- init; one update per chunk (stopping at the first failing one); final.
 `some bytes` = every update returned 1 and final returned 1. -/
-def decodeChunksFrom (ctx : DecCtx) : List Bytes → Option Bytes
+def decodeChunksFrom (lim : Nat) (ctx : DecCtx) : List Bytes → Option Bytes
   | [] => if decodeFinal ctx then some [] else none
   | s :: rest =>
-    match decodeUpdate ctx s with
-    | (ctx', out, .ok) => (decodeChunksFrom ctx' rest).map (out ++ ·)
+    match decodeUpdate lim ctx s with
+    | (ctx', out, .ok) => (decodeChunksFrom lim ctx' rest).map (out ++ ·)
     | _ => none
 
-def decodeChunks (chunks : List Bytes) : Option Bytes := decodeChunksFrom decodeInit chunks
+def decodeChunks (lim : Nat) (chunks : List Bytes) : Option Bytes := decodeChunksFrom lim decodeInit chunks
 
 /-- one-shot use (what squid's callers do): init, one update, final -/
-def decodeAll (s : Bytes) : Option Bytes := decodeChunks [s]
+def decodeAll (lim : Nat) (s : Bytes) : Option Bytes := decodeChunks lim [s]
 
 /-! ## encoding -/
 
